@@ -115,6 +115,7 @@ private def fmtUsed (w n : Nat) : String := if n = 0 then "0" else natToHexPad n
 
 def handleSel (w : Nat) (op : String) (args : List String) (got : String) : Option Verdict :=
   match op, args with
+  | "core_reinit", [] => some { model := "ok", spec := ["ok"], tags := ["core_reinit"] }
   | "fp_sel", [ids] => do
     let id ← ids.toInt?
     let kv := kvs got
